@@ -18,7 +18,9 @@ from hdl21.external_module import ExternalModuleCall
 from hdl21.primitives import PrimitiveCall
 
 # number of referenced objects of the `ref` pool (see Universe.ref)
-NREF = 12
+NREF = 16
+# number of UNHASHABLE values (lists, dicts, sets) of the `mut` pool (see Universe.mut)
+NMUT = 8
 # number of objects WITHOUT a JSON form of the `obj` pool (see Universe.obj)
 NOBJ = 15
 
@@ -120,7 +122,14 @@ class Universe:
         if i in self.refs:
             return self.refs[i]
         Mos, R = h.primitives.Mos, h.primitives.IdealResistor
+        FS = frozenset
         spell = {
+            # sets of sets, sets whose members have equal str(): equal values built in other orders
+            12: lambda: [FS([FS(["a", "b"]), FS(["c", "d", "e"]), FS(["f"])]), FS([FS(["f"]), FS(["e", "d", "c"]), FS(["b", "a"])]),
+                         FS([FS(["d", "c", "e"]), FS(["f"]), FS(["a", "b"])])],
+            13: lambda: [FS([1, "1", 2, "2"]), FS(["2", 2, "1", 1]), FS(["1", "2", 1, 2])],
+            14: lambda: [FS([FS([FS(["p", "q"]), FS(["r"])]), FS([FS(["s", "t", "u"])])]), FS([FS([FS(["u", "t", "s"])]), FS([FS(["r"]), FS(["q", "p"])])])],
+            15: lambda: [FS([FS([1, "1"]), FS(["x", "y"])]), FS([FS(["y", "x"]), FS(["1", 1])])],
             # sets: equal values built in other orders (their iteration order also depends on the interpreter's hash seed)
             10: lambda: [frozenset(["alpha", "beta", "gamma", "delta"]), frozenset(["delta", "gamma", "beta", "alpha"]),
                          frozenset(["gamma", "alpha", "delta", "beta", "alpha"])],
@@ -186,6 +195,30 @@ class Universe:
         self.objs[key] = x
         return x
 
+    # UNHASHABLE parameter values: lists, dicts, sets (compared by value; every variant is a separately built, equal container)
+    MUT_KIND = {0: "list", 1: "list", 2: "dict", 3: "set", 4: "list_of_lists", 5: "list", 6: "dict", 7: "set"}
+
+    def mut(self, i, variant=0):
+        i = i % NMUT
+        spell = {
+            0: lambda: [[1, 2, 4], list((1, 2, 4)), [1] + [2, 4]],
+            1: lambda: [[1, 2], list(range(1, 3))],
+            2: lambda: [{"a": 1, "b": 2}, {"b": 2, "a": 1}, dict([("a", 1), ("b", 2)])],
+            3: lambda: [{"alpha", "beta", "gamma"}, set(["gamma", "beta", "alpha"]), {"beta"} | {"alpha", "gamma"}],
+            4: lambda: [[[1], [2, 3]], [[1]] + [[2, 3]]],
+            5: lambda: [[], list()],
+            6: lambda: [{"a": 1}, dict(a=1)],
+            7: lambda: [{"alpha"}, set(["alpha"])],
+        }[i]()
+        return spell[variant % len(spell)]
+
+    def mut_index(self, x):
+        for i in range(NMUT):
+            y = self.mut(i)
+            if type(y) is type(x) and y == x:
+                return i
+        return None
+
     def obj_index(self, x):
         for k, y in self.objs.items():
             if k != "wm" and y is x:
@@ -200,7 +233,7 @@ class Universe:
         for i in (0, 1, 2, 3, 8):
             if self.ref(i) is x:
                 return i
-        for i in (4, 5, 6, 7, 9, 10, 11):
+        for i in (4, 5, 6, 7, 9, 10, 11, 12, 13, 14, 15):
             y = self.ref(i)
             if type(y) is type(x) and y == x:
                 return i
@@ -225,7 +258,12 @@ class Universe:
             return self.enums[n]
         if t == "ref":
             from typing import FrozenSet
-            return Union[h.Module, h.Generator, h.ExternalModule, ExternalModuleCall, PrimitiveCall, FrozenSet[str]]
+            from typing import Any
+            return Union[h.Module, h.Generator, h.ExternalModule, ExternalModuleCall, PrimitiveCall, FrozenSet[str],
+                         FrozenSet[FrozenSet[str]], FrozenSet[Any]]
+        if t == "mut":
+            from typing import List, Dict, Set
+            return Union[List[int], Dict[str, int], Set[str], List[List[int]]]
         if t == "scalar":
             return h.Scalar
         if t == "pref":
@@ -279,6 +317,8 @@ class Universe:
             return self.ref(v[1], v[2] if len(v) > 2 else 0)
         if t == "o":
             return self.obj(v[1], v[2] if len(v) > 2 else 0)
+        if t == "m":
+            return self.mut(v[1], v[2] if len(v) > 2 else 0)
         if t == "P":        # Prefixed(number=Decimal(text), prefix): three equivalent constructions
             num, pre = Decimal(v[1]), Prefix(v[2])
             form = v[3] if len(v) > 3 else "new"
@@ -344,6 +384,10 @@ class Universe:
             i = self.obj_index(x)
             if i is not None:
                 return ["o", i]
+        if t == "mut":
+            i = self.mut_index(x)
+            if i is not None:
+                return ["m", i]
         if t == "rec":
             return ["R", [self.encode(dd, getattr(x, f"r{i}")) for i, dd in enumerate(d[1])]]
         return ["?", repr(x)[:80]]
@@ -526,7 +570,36 @@ def run_values(cases):
     return out
 
 
+def run_setenc(cases):
+    """Model-validation stream for the set branch of hdl21_naming_encoder: build the (nested) frozenset of a spec in the
+    order the spec lists its members and report (a) the order in which THIS interpreter iterates over every set of it and
+    (b) the JSON text json.dumps writes for it through the encoder."""
+    import json as _json
+    from hdl21.params import hdl21_naming_encoder
+
+    def build(sp):
+        if sp[0] == "S":
+            return frozenset(build(x) for x in sp[1])
+        return sp[1]
+
+    def iterated(v):
+        if isinstance(v, frozenset):
+            return ["S", [iterated(x) for x in v]]
+        return ["i", v] if isinstance(v, int) else ["s", v]
+
+    out = []
+    for c in cases:
+        try:
+            v = build(c["spec"])
+            out.append(dict(iter=iterated(v), text=_json.dumps(v, default=hdl21_naming_encoder, sort_keys=True)))
+        except BaseException as e:
+            out.append(dict(error=type(e).__name__ + ": " + str(e)[:200]))
+    return out
+
+
 def handler(p):
+    if "setenc" in p:
+        return dict(results=run_setenc(p["setenc"]))
     if "values" in p:
         return dict(results=run_values(p["values"]))
     from hdl21.generator import Generator
